@@ -198,7 +198,8 @@ def judge_runaway(r: Rel, eos, Tn, tol, hyd, tier):
         return "window could not be evaluated by the harness (top point or more than half of the grid unknown)"
     top = vals[-1]
     if abs(top[2]) < MARGIN * Tn:
-        return f"runaway answer within the stated margin of the threshold: |m(vJ-)|/Tn = {abs(top[2]) / Tn:.3g} < {MARGIN}"
+        r.detail["m(vJ-)/Tn"] = top[2] / Tn
+        return f"runaway answer within the stated margin of the threshold: |m(vJ-)|/Tn < {MARGIN}"
     sgn = np.sign(top[2])
     r.tag("runaway-sign" + ("+" if sgn > 0 else "-"))
     for name, vw, m, noise, src in known:
@@ -214,7 +215,7 @@ def judge_static(r: Rel, eos, Tn, tol, hyd, tier):
         return "m(vMin) could not be evaluated by the harness: " + src
     r.detail["m(vMin)/Tn"] = m / Tn
     if abs(m) < MARGIN * Tn:
-        return f"static answer within the stated margin of the threshold: |m(vMin)|/Tn = {abs(m) / Tn:.3g} < {MARGIN}"
+        return f"static answer within the stated margin of the threshold: |m(vMin)|/Tn < {MARGIN}"
     r.true("vMin:static-mismatch-has-stopping-sign", m < 0, vw=vw, m_over_Tn=m / Tn, source=src)
     return None
 
@@ -302,6 +303,9 @@ def static_cases(tier: str) -> list[dict]:
             out.append(dict(c))
     res = []
     for c in out:
+        eos, Tn = HL.build_eos(c)
+        if eos.p("b", Tn) > eos.p("s", Tn):
+            continue  # broken phase favoured: belongs to section eos
         for tol in ("tight", "default"):
             d = dict(c)
             d.update(tol=tol, tier=tier, static=True)
